@@ -1,5 +1,7 @@
 //! Component-level ops (internal functions of the crates), used for component correspondence.
+use lexical_parse_float::parse::{parse_mantissa_sign, parse_number};
 use lexical_util::format as f;
+use lexical_util::iterator::{AsBytes, Iter};
 
 fn hex128(s: &str) -> u128 {
     u128::from_str_radix(s.trim_start_matches("0x"), 16).unwrap()
@@ -17,6 +19,52 @@ pub fn run_comp(op: &str, a: &[&str]) -> String {
         },
         // rb HEX128 -> NumberFormatBuilder::rebuild(x).build_unchecked() as hex
         "rb" => format!("{:x}", f::NumberFormatBuilder::rebuild(hex128(a[0])).build_unchecked()),
+        // pn FMT PARTIAL LOSSY EXP DP NAN INF INFINITY HEX
+        "pn" => crate::dispatch_pn(crate::parse_fmt(a[0]), &a[1..]).unwrap_or_else(|| "nofmt".to_string()),
         _ => "badop".into(),
+    }
+}
+
+/// pn: args = [partial, lossy, exp, dp, nan, inf, infinity, hexinput]
+/// Calls `parse_number::<FORMAT, PARTIAL>` after `parse_mantissa_sign` and the emptiness test,
+/// exactly as `parse_partial` / `parse_complete` do.
+/// Result: `ok <mantissa> <exponent> <many 0|1> <neg 0|1> <count> <integer hex> <fraction hex|->`
+///       | `empty <cursor>` (nothing after the sign: parse_number is not called) | `err Kind idx`.
+pub fn op_pn<const F: u128>(a: &[&str]) -> String {
+    let partial = a[0] == "1";
+    let opts = match crate::pf_opts(&a[1..7]) {
+        Ok(o) => o,
+        Err(s) => return s,
+    };
+    let input = crate::guard::GuardedBuf::from_bytes(&crate::unhex(a[7]));
+    let bytes = input.as_slice();
+    let mut byte = bytes.bytes::<F>();
+    let is_negative = match parse_mantissa_sign(&mut byte) {
+        Ok(b) => b,
+        Err(e) => return crate::err_line(&e),
+    };
+    if lexical_util::iterator::DigitsIter::is_consumed(&mut byte.integer_iter()) {
+        return format!("empty {}", byte.cursor());
+    }
+    let r = if partial {
+        parse_number::<F, true>(byte.clone(), is_negative, &opts)
+    } else {
+        parse_number::<F, false>(byte.clone(), is_negative, &opts)
+    };
+    match r {
+        Ok((n, count)) => format!(
+            "ok {} {} {} {} {} {} {}",
+            n.mantissa,
+            n.exponent,
+            n.many_digits as u8,
+            n.is_negative as u8,
+            count,
+            crate::hex(n.integer),
+            match n.fraction {
+                Some(f) => crate::hex(f),
+                None => "-".to_string(),
+            }
+        ),
+        Err(e) => crate::err_line(&e),
     }
 }
